@@ -13,7 +13,7 @@ groups in the stubs (with and without implementation); four placements of the sa
 
 Oracle: the expected merged tree is computed from the two *sources* (parsed with ``ast``, independently
 of Griffe) by the rules of the statement; canonical JSON must be equal for both discovery orders;
-M-MON-style window monitor on ``Alias.resolve_target`` during the load (alias resolution is off).
+window monitor on ``Alias.resolve_target`` while ``merge_stubs`` is on the stack (alias resolution is off).
 """
 from __future__ import annotations
 
@@ -44,8 +44,10 @@ LEVEL_TEXT = ("Each generated pair is written to disk in every placement and loa
               "member by member with the expectation derived from the two sources (runtime members kept with their kind, "
               "stub annotations / returns / overload lists on same-kind members, runtime docstring unless missing, stub-only "
               "members added with runtime=False, mismatched kinds untouched, no exception), canonical JSON must be equal "
-              "across orders, and every Alias.resolve_target call during the load must be on a runtime alias that has a "
-              "same-named non-import stub member.")
+              "across orders, and every Alias.resolve_target call made while merge_stubs is on the stack (explicit merge in "
+              "_load_package, implicit merge in set_member, direct API call) must be on a runtime-side import that has a "
+              "same-named non-import stub member or stub @overload group - the only object merger.py dereferences "
+              "(obj.get_member(name).kind / per-kind merge / .overloads=); a stub-side import must never be dereferenced.")
 LEVEL_NOTE = ("trusted: the ast-based reading of the generated sources (restricted forms: simple annotations, one-line "
               "docstrings, absolute imports); where the stub gives no annotation but the runtime does, and for the content of "
               "the *target* of a runtime alias that has same-named stubs, either outcome is accepted (statement silent)")
@@ -57,7 +59,9 @@ REQUIRED_COUNTERS = ["placements_judged", "runtime_members_checked", "same_kind_
                      "merge_into_alias_target_seen", "listings_with_py_pyi_pair_stub_first",
                      "listings_with_py_pyi_pair_runtime_first"]
 EXHAUSTIVE = {"quick": False, "thorough": False}
-ASSUMPTIONS = ["stub has no annotation where the runtime has one: keeping or dropping the runtime annotation both accepted",
+ASSUMPTIONS = ["the alias monitor's window is the dynamic extent of merge_stubs (every reference to it in merger, loader and mixins "
+               "is wrapped); what the loader resolves outside of merging (expand_exports / expand_wildcards) is not this property",
+               "stub has no annotation where the runtime has one: keeping or dropping the runtime annotation both accepted",
                "a runtime import with same-named non-import stubs: the documented 'merge into the alias target' is allowed "
                "to resolve that alias; what the target then looks like is not judged",
                "a function present in the stubs only as @overload signatures and absent at runtime is not a member of "
